@@ -102,6 +102,16 @@ def used_float_methods(ctx, roots, shallow=()):
     return used
 
 
+def _f64_construct_method(construct):
+    """method name behind a C20-a construct (`f64-method:m`, `f64-override:m`, either possibly reported as `kernel-undecided:…`)"""
+    if not isinstance(construct, str):
+        return None
+    c = construct[len("kernel-undecided:"):] if construct.startswith("kernel-undecided:") else construct
+    if c.startswith("f64-method:") or c.startswith("f64-override:"):
+        return c.split(":", 1)[1]
+    return None
+
+
 def restate_f64_primitives(ctx, roots, what, shallow=()):
     """C20-a restated for exactly the scalar operations that the code behind this property calls: for the f64 instantiation each of them
     is the like-named std function.  (A change to a primitive this property's code never calls is not this property's business.)"""
@@ -113,4 +123,4 @@ def restate_f64_primitives(ctx, roots, what, shallow=()):
         return ctx.note("%s.C20-a: no scalar-trait call reachable from %s" % (ctx.pid, what))
     ctx.note("%s.C20-a: scalar operations reachable from %s: %s" % (ctx.pid, what, sorted(used)))
     run_restated(ctx, [("C20", {"C20-a": "for T = f64 the scalar operations %s is written in (%s) are std's" % (what, ", ".join(sorted(used)))})],
-                 keep=lambda rule, construct: isinstance(construct, str) and construct.startswith("f64-method:") and construct.split(":", 1)[1] in used)
+                 keep=lambda rule, construct: _f64_construct_method(construct) in used)
